@@ -30,6 +30,7 @@ RULE = (
     "ExcelParameterReader); all PAIRS of faults on the long layouts for from_df and set_values_from_df. Outcome "
     "classes: must-raise (target bit-identical afterwards), must-succeed with exactly the record-list result, "
     "open (stated). Non-trivial = at least one fault applied. Distinct by construction."
+    " Also: ragged CSV lines, integer items starting at 0, infinite values, a 41 x 30 x 29 table."
 )
 ASSUMPTIONS = [
     "open outcomes (either behaviour accepted): duplicated rows that also carry an unknown item under allow_extra_values; unknown items under an items-only header; an unknown item in the header of a wide layout under allow_extra_values",
